@@ -21,6 +21,9 @@ type toolInput struct {
 	Class   string   // repo, gen, genlr, mut, bytes
 	Rules   []string // rule names if known (for -alternate-entrypoints)
 	Rebuild bool     // library-style use: parse once, build twice from the same grammar value
+	// Attrs describes the shape of generated inputs whose shape matters to the
+	// classification of a violation (kept out of minimisation of the grammar text).
+	Attrs map[string]string
 }
 
 // repoGrammars lists every .peg file of the scratch copy, sorted.
@@ -210,7 +213,9 @@ func mutateGrammar(r *rng, src []byte) []byte {
 		case 8: // replace a literal quote style
 			s = strings.Replace(s, "\"", "`", 1)
 		case 9, 10: // replace a terminal by a lexically tricky one
-			toks := []string{`[\p{L]`, `[\p{L} ]`, `[\pL\pN]`, `[\p{Latin}a-z]i`, `[\p{Nope}]`, `[\pX]`, `[^]`, `[]`, `[\]]`, `[\-a]`, `[a\-]`, `[z-a]`, `[a-]`, `[\x41-\x5a]`, `[\u00e9]`, `[\U0001F600]`, `[\101]`, `'\''`, `'\"'`, "\"\\u00e9\"", "\"\\xff\"", "\"\\uD800\"", "\"\\q\"", "`raw\\n`", "`raw`i", `""`, `''i`, `"a"i`, `.`, `'\777'`, `'\08'`, `[\08]`, `[\p{`, `[\p`, `"\u12"`, `[cf\u212a]i`, `[\u0130]i`, `[\u017f]i`, `"\u212a"i`, `[\u212a-\u212b]i`, `[\ufffd]`, `[\U0010ffff]`, `[\x00]`, `[\x7f-\x80]`}
+			toks := []string{`[\p{L]`, `[\p{L} ]`, `[\pL\pN]`, `[\p{Latin}a-z]i`, `[\p{Nope}]`, `[\pX]`, `[^]`, `[]`, `[\]]`, `[\-a]`, `[a\-]`, `[z-a]`, `[a-]`, `[\x41-\x5a]`, `[\u00e9]`, `[\U0001F600]`, `[\101]`, `'\''`, `'\"'`, "\"\\u00e9\"", "\"\\xff\"", "\"\\uD800\"", "\"\\q\"", "`raw\\n`", "`raw`i", `""`, `''i`, `"a"i`, `.`, `'\777'`, `'\08'`, `[\08]`, `[\p{`, `[\p`, `"\u12"`, `[cf\u212a]i`, `[\u0130]i`, `[\u017f]i`, `"\u212a"i`, `[\u212a-\u212b]i`, `[\ufffd]`, `[\U0010ffff]`, `[\x00]`, `[\x7f-\x80]`,
+				// names of Unicode categories and scripts in all the spellings people try
+				`[\p{Letter}]`, `[\p{Decimal_Number}]`, `[\p{punct}]`, `[\p{L&}]`, `[\p{LC}]`, `[\p{Cn}]`, `[\p{Zs}\p{Han}]`, `[\p{latin}]`, `[\p{Any}]`, `[\p{ASCII}]`, `[\p{Other}]`, `[\p{Mark}]`, `[\p{Number}]`, `[\p{Symbol}]i`, `[\P{L}]`, `[\p{^L}]`, `[\p{Lowercase_Letter}]`, `[\p{Uppercase_Letter}a]`, `[\p{digit}]`, `[\p{Cyrillic}\p{Greek}]`, `[\p{Sc}\p{Letter}]`, `[\p{Punctuation}-]`}
 			i := strings.IndexAny(s, "'\"[")
 			if i < 0 || r.chance(1, 3) {
 				i = r.intn(len(s) + 1)
@@ -326,4 +331,48 @@ func genFreeRefGrammar(r *rng) toolInput {
 		names = append(names, rl.Name)
 	}
 	return toolInput{Name: "genfree", Grammar: []byte(g.Print(po)), Class: "genfree", Rules: names}
+}
+
+// genDeepGrammar draws a "doubling chain": rules W<n> .. W1 that each mention
+// the rule below them several times, over a terminal base rule W0. The text is
+// a few hundred bytes; anything the tool does per *path* through the rules
+// instead of per rule costs 2^n. What the analyses of the tool visit depends
+// on the shape, so the shape is recorded:
+//
+//	refs_all_visited=false: sequences over a non-nullable base; the
+//	    nullability analysis stops at the first item of each sequence
+//	refs_all_visited=true: a nullable base under sequences, or a choice between
+//	    references; the analysis looks at every reference
+func genDeepGrammar(r *rng) toolInput {
+	if r.chance(1, 6) {
+		// deeply nested parentheses: the grammar front-end is itself a backtracking
+		// parser and needs 2^depth steps for them unless -cache is given
+		d := 24 + r.intn(24)
+		g := "A <- " + strings.Repeat("( ", d) + "'a'" + strings.Repeat(" )", d) + "\n"
+		return toolInput{Name: "gennest", Class: "gendeep", Grammar: []byte(g), Rules: []string{"A", "A"},
+			Attrs: map[string]string{"shape": "nested-parentheses", "depth": fmt.Sprint(d)}}
+	}
+	depth := 36 + r.intn(28)
+	type shape struct {
+		body, base string
+		all        bool
+	}
+	shapes := []shape{
+		{"X X", "[01]", false}, {"X ' ' X", "[01]", false}, {"X X X", "'x'", false}, {"&X X", "[01]", false}, {"(X X)*", "[01]", false},
+		{"X ' ' X", "'a'?", false}, {"a:X b:X", "[01]", false}, {"X !X X", ".", false},
+		{"X X", "'a'?", true}, {"X X / X", "[01]", true}, {"X / X", "'a'", true}, {"X X X", "[01]*", true},
+	}
+	sh := shapes[r.intn(len(shapes))]
+	var b strings.Builder
+	if r.chance(1, 2) {
+		b.WriteString("{\npackage gen\n}\n")
+	}
+	var names []string
+	for i := depth; i >= 1; i-- {
+		fmt.Fprintf(&b, "W%d <- %s\n", i, strings.ReplaceAll(sh.body, "X", fmt.Sprintf("W%d", i-1)))
+		names = append(names, fmt.Sprintf("W%d", i))
+	}
+	fmt.Fprintf(&b, "W0 <- %s\n", sh.base)
+	return toolInput{Name: "gendeep", Class: "gendeep", Grammar: []byte(b.String()), Rules: names,
+		Attrs: map[string]string{"shape": "doubling-chain", "refs_all_visited": fmt.Sprint(sh.all), "depth": fmt.Sprint(depth), "body": sh.body, "base": sh.base}}
 }
